@@ -70,13 +70,40 @@ static void on_dtor(const void* p, int t)
     r.destroyed_by.push_back(t); // a second entry is the double-destroy trap
     r.alive = false;
 }
+// re-entrant payloads ("a child unregisters itself from its parent"): a payload created with mode != 0 reaches back, from its
+// destructor, to the quaint_ptr that owns it — any pool pointer that still points at it, and its home slot if that is empty —
+// and calls reset() on it (mode 1), assigns nullptr to it (2), or both (3).  Only while the driver performs an operation in
+// which unique_ptr empties / re-seats the pointer BEFORE it runs the deleter (reset, = nullptr, move assignment: `armed`);
+// never while the owner itself is being destroyed.  On such an owner the calls are no-ops, the object dies once.
+// (Moving from the owner / move-assigning onto it would replace the std::function deleter while it runs: not done.)
+static std::vector<std::optional<nitro::lang::quaint_ptr>>* g_pool = nullptr;
+static bool armed = false;
+static void reenter(const void* self, int& mode, std::size_t home)
+{
+    if (!mode || !armed || !g_pool) return;
+    const int m = mode;
+    mode = 0; // once
+    for (std::size_t i = 0; i < g_pool->size(); i++)
+    {
+        auto& s = (*g_pool)[i];
+        if (!s.has_value()) continue;
+        const void* g = s->get();
+        if (g == self || (i == home && g == nullptr))
+        {
+            if (m & 1) s->reset();
+            if (m & 2) *s = nullptr;
+        }
+    }
+}
 template <int T, std::size_t PAD>
 struct Payload
 {
     int id;
+    int mode = 0;
+    std::size_t home = 0;
     unsigned char pad[PAD];
     // fail: the constructor throws before the object exists (nothing registered, no destructor may ever run on it)
-    explicit Payload(int i, bool fail = false) : id(i)
+    explicit Payload(int i, bool fail = false, int md = 0, std::size_t hm = 0) : id(i), mode(md), home(hm)
     {
         if (fail) throw std::runtime_error("payload constructor fails");
         std::memset(pad, 0x40 + T, PAD);
@@ -84,7 +111,11 @@ struct Payload
     }
     Payload(const Payload&) = delete;
     Payload& operator=(const Payload&) = delete;
-    ~Payload() { on_dtor(this, T); }
+    ~Payload()
+    {
+        reenter(this, mode, home);
+        on_dtor(this, T);
+    }
 };
 using A = Payload<0, 4>;
 using B = Payload<1, 48>;
@@ -93,8 +124,8 @@ using B = Payload<1, 48>;
 struct C : Payload<2, 300>
 {
     bool args_ok;
-    C(int i, std::unique_ptr<int> mo, const std::string& lv, std::string&& rv, bool fail = false)
-    : Payload<2, 300>(i, fail), args_ok(mo && *mo == i + 1 && lv == "lvalue-argument" && rv == "rvalue-argument-longer-than-sso")
+    C(int i, std::unique_ptr<int> mo, const std::string& lv, std::string&& rv, bool fail = false, int md = 0, std::size_t hm = 0)
+    : Payload<2, 300>(i, fail, md, hm), args_ok(mo && *mo == i + 1 && lv == "lvalue-argument" && rv == "rvalue-argument-longer-than-sso")
     {
     }
 };
@@ -135,17 +166,17 @@ static std::string state_obs(const std::vector<std::optional<QP>>& pool, const s
     return join(o, ",") + "|" + join(p, ",") + "|" + join(v, ",") + "|" + c + "|" + d;
 }
 
-static QP make(int t, bool fail = false)
+static QP make(int t, bool fail = false, int md = 0, std::size_t hm = 0)
 {
     int id = static_cast<int>(objs.size());
     switch (t)
     {
-    case 0: return nitro::lang::make_quaint<A>(id, fail);
-    case 1: return nitro::lang::make_quaint<B>(id, fail);
+    case 0: return nitro::lang::make_quaint<A>(id, fail, md, hm);
+    case 1: return nitro::lang::make_quaint<B>(id, fail, md, hm);
     default:
     {
         const std::string lv = "lvalue-argument";
-        return nitro::lang::make_quaint<C>(id, std::make_unique<int>(id + 1), lv, std::string("rvalue-argument-longer-than-sso"), fail);
+        return nitro::lang::make_quaint<C>(id, std::make_unique<int>(id + 1), lv, std::string("rvalue-argument-longer-than-sso"), fail, md, hm);
     }
     }
 }
@@ -168,20 +199,25 @@ static std::string run(int n, const std::string& opsw)
     {
         std::vector<std::optional<QP>> pool(n);
         std::vector<QP> vec;
+        struct Pub { Pub(std::vector<std::optional<QP>>* p) { g_pool = p; armed = false; } ~Pub() { g_pool = nullptr; armed = false; } } pub(&pool);
+        struct Arm { Arm() { armed = true; } ~Arm() { armed = false; } };
         auto live = [&](std::size_t i) { return i < pool.size() && pool[i].has_value(); };
         for (auto& op : fields(opsw))
         {
             auto f = split_on(op, '.');
             auto arg = [&](std::size_t k) { return static_cast<std::size_t>(std::stoul(f.at(k))); };
             bool ok = false;
-            if (f[0] == "mk")
+            if (f[0] == "mk" || f[0] == "mr")
             {
+                // mr.i.t.m: the payload is re-entrant with mode m and home slot i
                 std::size_t i = arg(1);
                 int t = static_cast<int>(arg(2));
+                const int md = f[0] == "mr" ? static_cast<int>(arg(3)) : 0;
+                if (md < 0 || md > 3) return "BADCASE";
                 if (i < pool.size() && t >= 0 && t < 3)
                 {
                     ok = true;
-                    if (pool[i]) *pool[i] = make(t); else pool[i].emplace(make(t));
+                    if (pool[i]) { QP nw = make(t, false, md, i); Arm a; *pool[i] = std::move(nw); } else pool[i].emplace(make(t, false, md, i));
                 }
             }
             else if (f[0] == "mc")
@@ -192,9 +228,9 @@ static std::string run(int n, const std::string& opsw)
             else if (f[0] == "ma")
             {
                 std::size_t i = arg(1), j = arg(2);
-                if (live(i) && live(j)) { ok = true; QP& src = *pool[j]; *pool[i] = std::move(src); }
+                if (live(i) && live(j)) { ok = true; QP& src = *pool[j]; Arm a; *pool[i] = std::move(src); }
             }
-            else if (f[0] == "rs") { std::size_t i = arg(1); if (live(i)) { ok = true; pool[i]->reset(); } }
+            else if (f[0] == "rs") { std::size_t i = arg(1); if (live(i)) { ok = true; Arm a; pool[i]->reset(); } }
             else if (f[0] == "dr") { std::size_t i = arg(1); if (live(i)) { ok = true; pool[i].reset(); } }
             else if (f[0] == "vp") { std::size_t i = arg(1); if (live(i)) { ok = true; vec.push_back(std::move(*pool[i])); } }
             else if (f[0] == "vg") { ok = true; vec.reserve(vec.capacity() + 1); }
@@ -202,9 +238,9 @@ static std::string run(int n, const std::string& opsw)
             else if (f[0] == "vt")
             {
                 std::size_t i = arg(1), k = arg(2);
-                if (live(i) && k < vec.size()) { ok = true; *pool[i] = std::move(vec[k]); }
+                if (live(i) && k < vec.size()) { ok = true; Arm a; *pool[i] = std::move(vec[k]); }
             }
-            else if (f[0] == "an") { std::size_t i = arg(1); if (live(i)) { ok = true; *pool[i] = nullptr; } }
+            else if (f[0] == "an") { std::size_t i = arg(1); if (live(i)) { ok = true; Arm a; *pool[i] = nullptr; } }
             else if (f[0] == "vn") { std::size_t k = arg(1); if (k < vec.size()) { ok = true; vec[k] = nullptr; } }
             else if (f[0] == "sw")
             {
@@ -404,13 +440,126 @@ static std::string run(int n, const std::string& opsw)
 // ===================================================================== env
 namespace e
 {
+// an op is a plain operation  s.N.V | u.N | g.N.D | d.N | n.N  (a get is observed at once) or a result-holding group
+// h<form>.<sub>.<sub>...  (fields of a sub-operation separated by ':'): the results of ALL gets of the group are looked at
+// only after every sub-operation was made.  The results are held exactly as a caller may hold them:
+//   r: `const std::string& x = get(...)`   a: `auto&& x = get(...)`   m: alternately
+//   c: as the arguments of ONE call expression  see(get(..), get(..)[, get(..)])  with const std::string& parameters
+// With `std::string get(...)` each binding extends the life of its own temporary to the end of the enclosing block, so all
+// of this is well defined; a result is a value: it keeps the text it had when get returned.
+struct Sub { char k; std::string name, arg; };
+static bool parse_sub(const std::vector<std::string>& f, Sub& s)
+{
+    if (f.size() < 2 || f[0].size() != 1) return false;
+    s.k = f[0][0];
+    s.name = unhex(f[1]);
+    if ((s.k == 's' || s.k == 'g') && f.size() == 3) { s.arg = unhex(f[2]); return true; }
+    return (s.k == 'u' || s.k == 'd' || s.k == 'n') && f.size() == 2;
+}
+struct Held
+{
+    const std::vector<Sub>& subs;
+    char form;
+    std::vector<const std::string*> held; // nullptr: that get raised
+    std::vector<std::string>& res;
+    bool bad = false;
+    void finish() { for (auto p : held) res.push_back(p ? "v" + hex(*p) : "raise"); }
+    // one stack frame per sub-operation: the reference bound here stays alive while the rest of the group runs
+    void go(std::size_t i)
+    {
+        if (i == subs.size()) { finish(); return; }
+        const Sub& s = subs[i];
+        const bool fwd = form == 'a' || (form == 'm' && held.size() % 2 == 1);
+        switch (s.k)
+        {
+        case 's': if (setenv(s.name.c_str(), s.arg.c_str(), 1) != 0) { bad = true; return; } go(i + 1); return;
+        case 'u': if (unsetenv(s.name.c_str()) != 0) { bad = true; return; } go(i + 1); return;
+        case 'g':
+            if (fwd) { auto&& x = nitro::env::get(s.name, s.arg); held.push_back(&x); go(i + 1); }
+            else { const std::string& x = nitro::env::get(s.name, s.arg); held.push_back(&x); go(i + 1); }
+            return;
+        case 'd':
+            if (fwd) { auto&& x = nitro::env::get(s.name); held.push_back(&x); go(i + 1); }
+            else { const std::string& x = nitro::env::get(s.name); held.push_back(&x); go(i + 1); }
+            return;
+        case 'n':
+        {
+            bool got = false;
+            try
+            {
+                if (fwd) { auto&& x = nitro::env::get(s.name, nitro::env::no_default); got = true; held.push_back(&x); go(i + 1); }
+                else { const std::string& x = nitro::env::get(s.name, nitro::env::no_default); got = true; held.push_back(&x); go(i + 1); }
+            }
+            catch (const nitro::except::exception&)
+            {
+                if (got) throw; // not ours: nothing after the get may raise
+                held.push_back(nullptr);
+                go(i + 1);
+            }
+            return;
+        }
+        default: bad = true; return;
+        }
+    }
+};
+// hands through whatever get returns, value or reference, unchanged (all three overloads have the same return type)
+static decltype(auto) get_of(const Sub& s)
+{
+    if (s.k == 'g') return nitro::env::get(s.name, s.arg);
+    if (s.k == 'd') return nitro::env::get(s.name);
+    return nitro::env::get(s.name, nitro::env::no_default);
+}
+static void see(std::vector<std::string>& res, const std::string& a, const std::string& b)
+{
+    res.push_back("v" + hex(a));
+    res.push_back("v" + hex(b));
+}
+static void see(std::vector<std::string>& res, const std::string& a, const std::string& b, const std::string& c)
+{
+    res.push_back("v" + hex(a));
+    res.push_back("v" + hex(b));
+    res.push_back("v" + hex(c));
+}
 static std::string run(const std::string& opsw)
 {
     std::vector<std::string> res;
     std::set<std::string> touched;
+    struct Clean { std::set<std::string>& t; ~Clean() { for (auto& n : t) unsetenv(n.c_str()); } } clean{touched};
     for (auto& op : fields(opsw))
     {
         auto f = split_on(op, '.');
+        if (f.at(0).size() == 2 && f[0][0] == 'h')
+        {
+            std::vector<Sub> subs;
+            for (std::size_t i = 1; i < f.size(); i++)
+            {
+                Sub s;
+                if (!parse_sub(split_on(f[i], ':'), s)) return "BADCASE";
+                touched.insert(s.name);
+                subs.push_back(s);
+            }
+            const char form = f[0][1];
+            if (form == 'c')
+            {
+                for (auto& s : subs) if (s.k != 'g' && s.k != 'd' && s.k != 'n') return "BADCASE";
+                try
+                {
+                    if (subs.size() == 2) see(res, get_of(subs[0]), get_of(subs[1]));
+                    else if (subs.size() == 3) see(res, get_of(subs[0]), get_of(subs[1]), get_of(subs[2]));
+                    else return "BADCASE";
+                }
+                catch (const nitro::except::exception&) { res.push_back("raise"); }
+            }
+            else if (form == 'r' || form == 'a' || form == 'm')
+            {
+                if (subs.empty()) return "BADCASE";
+                Held h{subs, form, {}, res};
+                h.go(0);
+                if (h.bad) return "BADCASE";
+            }
+            else return "BADCASE";
+            continue;
+        }
         std::string name = unhex(f.at(1));
         touched.insert(name);
         if (f[0] == "s") { if (setenv(name.c_str(), unhex(f.at(2)).c_str(), 1) != 0) return "BADCASE-setenv"; }
@@ -424,7 +573,6 @@ static std::string run(const std::string& opsw)
         }
         else return "BADCASE";
     }
-    for (auto& nme : touched) unsetenv(nme.c_str());
     return join(res, ",");
 }
 } // namespace e
